@@ -29,10 +29,10 @@ struct NoClone;
 progs = {}  # name -> (source body, expect, class, family)
 
 
-def add(name, body, expect, klass, family, twin=None, toplevel=""):
+def add(name, body, expect, klass, family, twin=None, toplevel="", prop="C12"):
     assert name not in progs, name
     src = PRELUDE + toplevel + "\nfn main() {\n" + "\n".join("    " + l for l in body.strip().splitlines()) + "\n}\n"
-    progs[name] = {"src": src, "expect": expect, "class": klass, "family": family, "twin": twin}
+    progs[name] = {"src": src, "expect": expect, "class": klass, "family": family, "twin": twin, "property": prop}
 
 
 def pair(family, name, acc, rej, klass, toplevel=""):
@@ -296,6 +296,71 @@ generic = [
 ]
 for name, top, acc, rej in generic:
     pair("generic-length", f"generic_{name}", acc, rej, "Lk", toplevel=GEN_TOP + top + "\n")
+
+
+# ------------------------------------------------------------------ zipping through the inverted forms (the trait's own entry points)
+pair("zip-len", "inverted_zip_own", "let _ = arr![1, 2, 3].inverted_zip(arr![4, 5, 6], |l, r| l + r);", "let _ = arr![1, 2, 3].inverted_zip(arr![4, 5, 6, 7], |l, r| l + r);", "Lk")
+pair("zip-len", "inverted_zip2_own", "let _ = arr![1, 2, 3].inverted_zip2(arr![4, 5, 6], |l, r| l + r);",
+     ["let _ = arr![1, 2, 3].inverted_zip2(arr![4, 5, 6, 7], |l, r| l + r);", "let _ = arr![1, 2, 3].inverted_zip2(arr![4, 5], |l, r| l + r);"], "Lk")
+pair("zip-len", "inverted_zip2_ref", "let (a, b) = (arr![1, 2, 3], arr![4, 5, 6]); let _ = (&a).inverted_zip2(&b, |l, r| l + r);",
+     "let (a, b) = (arr![1, 2, 3], arr![4, 5, 6, 7]); let _ = (&a).inverted_zip2(&b, |l, r| l + r);", "Lk")
+pair("zip-len", "inverted_zip2_box", "let _ = box_arr![1, 2, 3].inverted_zip2(box_arr![4, 5, 6], |l, r| l + r);",
+     "let _ = box_arr![1, 2, 3].inverted_zip2(box_arr![4, 5, 6, 7], |l, r| l + r);", "Lk")
+pair("zip-len", "inverted_zip_ref_own", "let a = arr![1, 2, 3]; let _ = (&a).inverted_zip(arr![4, 5, 6], |l, r| l + r);",
+     "let a = arr![1, 2, 3]; let _ = (&a).inverted_zip(arr![4, 5, 6, 7], |l, r| l + r);", "Lk")
+
+# ------------------------------------------------------------------ accept probes for other properties
+# Programs of a property's own domain that must keep compiling ("for all N, M", "both forms
+# work in const contexts").  They are judged differentially by that property's check: if every
+# probe of the property fails the API moved (inconclusive); if some fail while others compile,
+# the operation no longer exists for those inputs (violation).
+def probe(prop, family, name, body, toplevel=""):
+    add(name, body, "accept", "Lk", family, toplevel=toplevel, prop=prop)
+
+
+for n in range(0, 4):
+    for m in range(0, 4):
+        nm = n * m
+        nest = f"GenericArray<GenericArray<u32, U{n}>, U{m}>"
+        flat = f"GenericArray<u32, U{nm}>"
+        probe("C11", "probe-flatten", f"probe_flatten_owned_{n}_{m}", f"let a: {nest} = Default::default(); let f: {flat} = a.flatten(); let _ = f.len();")
+        probe("C11", "probe-flatten", f"probe_flatten_ref_{n}_{m}", f"let a: {nest} = Default::default(); let f: &{flat} = (&a).flatten(); let _ = f.len();")
+        probe("C11", "probe-flatten", f"probe_flatten_mut_{n}_{m}", f"let mut a: {nest} = Default::default(); let f: &mut {flat} = (&mut a).flatten(); let _ = f.len();")
+        if n >= 1:
+            probe("C11", "probe-unflatten", f"probe_unflatten_owned_{n}_{m}", f"let a: {flat} = Default::default(); let r: {nest} = a.unflatten(); let _ = r.len();")
+            probe("C11", "probe-unflatten", f"probe_unflatten_ref_{n}_{m}", f"let a: {flat} = Default::default(); let r: &{nest} = (&a).unflatten(); let _ = r.len();")
+            probe("C11", "probe-unflatten", f"probe_unflatten_mut_{n}_{m}", f"let mut a: {flat} = Default::default(); let r: &mut {nest} = (&mut a).unflatten(); let _ = r.len();")
+
+SLOT = """#[derive(Debug, PartialEq)] struct Slot { name: String, hits: Vec<u32> }
+const FREE: Slot = Slot { name: String::new(), hits: Vec::new() };
+#[derive(Clone, Copy, PartialEq, Debug)] struct P(u8, u16);
+const fn mk(i: u8) -> P { P(i, i as u16 * 3) }
+"""
+c20 = [
+    # a path to a const item of a non-Copy type is a legal repeat operand, as for the native [x; N]
+    ("const_operand_ty_5", "let s = arr![FREE; U5]; assert_eq!(s.len(), 5);"),
+    ("const_operand_ty_64", "let s = arr![FREE; U64]; assert_eq!(s.len(), 64);"),
+    ("const_operand_ty_2", "let s = arr![FREE; U2]; assert_eq!(s.len(), 2);"),
+    ("const_operand_expr_5", "let s = arr![FREE; 5]; assert_eq!(s.len(), 5);"),
+    ("const_operand_in_const", "const T: GenericArray<Slot, U2> = arr![FREE; U2]; static S: GenericArray<Slot, U3> = arr![FREE; U3]; let _ = (T.len(), S.len());"),
+    ("const_operand_expr_in_const", "const T: GenericArray<Slot, U4> = arr![FREE; 4]; let _ = T.len();"),
+    ("noncopy_single", "let one = arr![Slot { name: String::from(\"a\"), hits: vec![1] }; U1]; let none: GenericArray<Slot, U0> = arr![Slot { name: String::new(), hits: vec![] }; U0]; let _ = (one.len(), none.len());"),
+    ("noncopy_single_expr", "let one = arr![String::from(\"a\"); 1]; let none = arr![String::from(\"b\"); 0]; let _ = (one.len(), none.len());"),
+    ("const_fn_operand", "const T: GenericArray<P, U7> = arr![mk(3); U7]; const L: GenericArray<P, U3> = arr![mk(1), mk(2), mk(3)]; let _ = (T, L);"),
+    ("const_fn_body", "const fn build() -> GenericArray<u16, U4> { arr![7u16; U4] } const fn list() -> GenericArray<u8, U3> { arr![1, 2, 3] } const A: GenericArray<u16, U4> = build(); let _ = (A, list());"),
+    ("infer_literal_ty", "let t = arr![1; U6]; let u = arr![1; 6]; let _: i32 = t[0] + u[5];"),
+    ("infer_from_annotation", "let a: GenericArray<u8, U3> = arr![1, 2, 3]; let b: GenericArray<f32, U2> = arr![1.0; U2]; let c: GenericArray<u64, U2> = arr![9; 2]; let _ = (a, b, c);"),
+    ("trailing_commas", "let a = arr![1, 2, 3,]; let b = arr![1,]; let c: GenericArray<u8, U0> = arr![]; let d = box_arr![1, 2,]; let _ = (a, b, c, d);"),
+    ("expr_kinds", "let v = 4; let a = arr![{ let y = 3; y }, if v > 2 { 1 } else { 0 }, (|x: i32| x + 1)(2), v * 2, match v { 4 => 1, _ => 0 }]; let _: [i32; 5] = a.into_array();"),
+    ("nested_macros", "let a = arr![arr![1, 2], arr![3, 4]]; let b = arr![vec![1, 2], vec![3]]; let c = arr![arr![0u8; U2]; U3]; let _ = (a, b, c);"),
+    ("refs_and_strs", "let x = 5; let a = arr![&x, &x]; let s = arr![\"a\", \"b\", \"c\"]; let _ = (a, s);"),
+    ("repeat_expr_kinds", "let a = arr![1 + 1; U3]; let b = arr![{ 2u8 }; 3]; let c = arr![mk(1); U2]; let d = arr![u8::MAX; { 1 + 2 }]; let _ = (a, b, c, d);"),
+    ("box_forms", "let a = box_arr![1, 2, 3]; let b = box_arr![0u8; U5]; let c = box_arr![String::new(); 3]; let d: Box<GenericArray<u8, U0>> = box_arr![]; let e = box_arr![String::from(\"x\"); U2]; let _ = (a, b, c, d, e);"),
+    ("box_infer", "let t = box_arr![1; U6]; let u = box_arr![1; 6]; let _: i32 = t[0] + u[5]; let w: Box<GenericArray<u64, U2>> = box_arr![1, 2]; let _ = w;"),
+    ("large_type_lengths", "let a = arr![0u8; U1000]; let b = arr![0u8; Sum<U1024, U1>]; let c = box_arr![0u16; Exp<U10, U4>]; let _ = (a.len(), b.len(), c.len());"),
+]
+for name, body in c20:
+    probe("C20", "probe-arrmac", "probe_arr_" + name, body, toplevel=SLOT)
 
 # ------------------------------------------------------------------ write out
 if os.path.isdir(BIN):
